@@ -1,13 +1,20 @@
 """C07 bounded stand-in: unit covariance of every NumPy array function / ndarray method of the shared
 catalogue (lib_c06_catalogue).  Each template is evaluated on inputs x and on the same physical
-inputs re-expressed coherently in another unit system (all slots of one dimension scaled by the same
-independently computed factor):
-  (a) custom registry whose units are even powers of two apart -> re-expression is bit exact, a
-      unit-carrying result must denote exactly the same quantity (<= 4 ulp norm-wise, otherwise key
-      `inexact` if still within 1e-9, `value` beyond), a unit-less result must be identical;
-  (b) ordinary units (m/s/kg vs cm/ms/g, inch/minute/lb) with rtol 1e-9.
+inputs re-expressed coherently in another unit system (all slots of one dimension multiplied by the
+same, independently computed factor; integer slots only where the factor is integral):
+  (a) D0->D1 (and D1->D2): custom registry whose units are even powers of two apart -> re-expression
+      is bit exact; a unit-carrying result must denote exactly the same quantity (<= 4 ulp norm-wise;
+      key aspect `inexact` if only within 1e-9 and NumPy itself is exact, `value` beyond), a
+      unit-less result must be identical;
+  (b) O0->O2 (m,s,kg -> cm,ms,g: the seeded multiples of 1/8 stay exact) with rtol 1e-9 and
+      cancellation residue below 1e-13 x input magnitude counted as zero;
+  (c) thorough only: O0->O1 (inch, minute, lb): value mismatches are reported only when unyt's
+      numbers differ from NumPy's on the same bare numbers (bin-edge flips and cancellation are
+      NumPy's floating point, unit arithmetic is already covered by (a), (b)).
 Functions whose result has the dimension of an input slot (`keep`) must return a unyt object
-commensurable with that slot (key `units-dropped`)."""
+commensurable with that slot (aspect `units-dropped`).  Rounding / integer casts / explicit
+subok=False / IO templates (`nocov`) are checked for type, dimensions and shape only.  Bare out=
+buffers and text results are not part of C07 (they are in C06)."""
 import os
 import random
 import sys
@@ -24,8 +31,8 @@ nfun = len(cat.dispatching_functions())
 R = Run("C07",
         "call templates of lib_c06_catalogue (%d functions/methods, %d of the %d dispatching numpy/linalg/fft "
         "functions; positional/keyword/out= forms over shapes x dtypes x seeded data) evaluated in a unit "
-        "system and re-expressed in another: dyadic custom registry (bit-exact) and ordinary units "
-        "(rtol 1e-9); results compared as physical quantities, unit-less results numerically, out=/in-place "
+        "system and re-expressed in another: dyadic custom registry (bit-exact), m/s/kg -> cm/ms/g "
+        "(rtol 1e-9) and, thorough, inch/minute/lb; results compared as physical quantities, unit-less results numerically, out=/in-place "
         "slots likewise; dimension-preserving functions must return commensurable quantities.  Non-trivial = "
         "the call succeeded in both systems and at least one slot was re-scaled.  Functions without a "
         "template: %s" % (len(have), nfun - len(missing), nfun, ", ".join(missing) or "none"),
